@@ -23,6 +23,17 @@ type frameParser struct {
 	r                   io.Reader
 	conn                quic.Connection
 	unknownFrameHandler unknownFrameHandlerFunc
+	// bodyStream: the parser reads the frames of a message body, where a stream that ends
+	// inside a frame (not between two frames) is io.ErrUnexpectedEOF rather than io.EOF.
+	bodyStream bool
+}
+
+// truncated maps the io.EOF of a stream that ended inside a frame.
+func (p *frameParser) truncated(err error) error {
+	if p.bodyStream && err == io.EOF {
+		return io.ErrUnexpectedEOF
+	}
+	return err
 }
 
 func (p *frameParser) ParseNext() (frame, error) {
@@ -31,9 +42,9 @@ func (p *frameParser) ParseNext() (frame, error) {
 		tr := &countingByteReader{r: qr}
 		t, err := quicvarint.Read(tr)
 		if err != nil {
-			if err == io.EOF && tr.n > 0 {
+			if tr.n > 0 {
 				// the stream ended inside the frame type, not between two frames
-				err = io.ErrUnexpectedEOF
+				err = p.truncated(err)
 			}
 			if p.unknownFrameHandler != nil {
 				hijacked, err := p.unknownFrameHandler(0, err)
@@ -59,11 +70,8 @@ func (p *frameParser) ParseNext() (frame, error) {
 		}
 		l, err := quicvarint.Read(qr)
 		if err != nil {
-			if err == io.EOF {
-				// the stream ended inside the frame header
-				err = io.ErrUnexpectedEOF
-			}
-			return nil, err
+			// the stream ended inside the frame header
+			return nil, p.truncated(err)
 		}
 
 		switch t {
@@ -83,11 +91,8 @@ func (p *frameParser) ParseNext() (frame, error) {
 		}
 		// skip over unknown frames
 		if _, err := io.CopyN(io.Discard, qr, int64(l)); err != nil {
-			if err == io.EOF {
-				// the stream ended inside the frame that is being skipped
-				err = io.ErrUnexpectedEOF
-			}
-			return nil, err
+			// the stream ended inside the frame that is being skipped
+			return nil, p.truncated(err)
 		}
 	}
 }
